@@ -86,6 +86,27 @@ def run(ctx):
     ctx.note("model_drift_records", len(drift))
     for r in recs[:2] + recs[-1:]:
         ctx.sample({k: r[k] for k in r if k in ("id", "mesh", "edges", "face_edges", "npf", "n_edge")})
+    # 2. observation order, supplied tables, selected / dual grids, MPAS-shaped sources (MeshOrder.tla,
+    #    MeshSources.tla): TLC proves the lazy-grid model, generates the histories, writes the sources,
+    #    judges the replayed histories (JudgeMeshHist.tla)
+    from checks import mesh_hist as mh
+
+    mh.model_check(ctx)
+    scope = mh.scope_pool(meshes4, 4, "s4f2", rng, 40) + mh.scope_pool(meshes5, 5, "s5f2", rng, 40) + mh.scope_pool(meshes43, 4, "s4f3", rng, 30)
+    hcases, reqs = mh.assemble(ctx, PROP, rng, thorough, scope)
+    hrecs, _, _ = mh.run_histories(ctx, PROP, hcases, reqs)
+    mh.count_cases(ctx, hcases)
+    for r in hrecs[:1] + hrecs[-1:]:
+        ctx.sample({k: r[k] for k in r if k in ("id", "order", "derived_by")})
+    ctx.rule += (
+        " Histories: MeshOrder.tla models the lazy grid by value; TLC proves order independence / dims = shapes / joint "
+        "coherence / supplied tables kept for the intended mechanism over every reachable store (before and after "
+        "selections and get_dual) and refutes four variant mechanisms; it generates every permutation of the core "
+        "observables and simulated orders over all 15, with isel / get_dual steps; MeshSrcGen.tla writes supplied "
+        "tables (keyed row order, flipped ends), MPAS encodings and selections and certifies them well-formed; each "
+        "history is replayed on a real grid (from_topology, open_grid(dict), UGRID dataset / file, MPAS dataset, "
+        "sample files) and judged by JudgeMeshHist.tla. Non-trivial history = distinct (mesh, width, supplied, route, order)."
+    )
     ctx.assumptions += [
         "TLC's evaluator and the CommunityModules Json reader",
         "projection of integer tables (harness/ux.py: fill value -> -1 after dtype/fill checks)",
